@@ -368,8 +368,13 @@ def run(tier, seed):
         if fs_:
             M = Matcher(fs_)
             seeks = [c for c in fs_.insts() if c.op == "call" and plain.callee_cname(c) in ("fseek", "fseeko", "fseeko64")]
+            from ..rules import min_width_through_casts
             ok = len(seeks) == 1 and M.strip(seeks[0].ops[1]) == ("v", fs_.params[1].id) and is_const(seeks[0].ops[2]) and const_val(seeks[0].ops[2]) == 1
-            rep.check(rid, ok, "file_source_skip seeks by exactly `bytes` from the current position (SEEK_CUR)", fs_.file, None, function=fs_.cname, obj="seek")
+            # ... at the width of the offset parameter of the seek call (a detour through a narrower type turns counts >= 2^31 into a backward seek,
+            # which a pipe - reading forward - does not imitate)
+            wide = ok and (min_width_through_casts(fs_, seeks[0].ops[1])[0] or 0) >= (plain.int_bits(fs_.defn(seeks[0].ops[1]).ty) if fs_.defn(seeks[0].ops[1]) is not None else 64)
+            rep.check(rid, ok and wide, "file_source_skip seeks by exactly `bytes` from the current position (SEEK_CUR), without narrowing the count", fs_.file,
+                      None if (ok and wide) else ("the count passes through a narrower integer type on its way to fseek" if ok else None), function=fs_.cname, obj="seek")
         fb = [f for f in plain.defined() if f.cname in ("file_source_skip_fallback", "file_source_skip") and any(plain.callee_cname(c) == "fread" for c in f.insts() if c.op == "call")]
         rep.check(rid, len(fb) >= 1, "fread-based fallback found", "lib/lha_input_stream.c", None, function="file_source_skip_fallback", obj="site")
         for f in fb[:1]:
